@@ -14,11 +14,27 @@ RULES["pg"] = ("one session = one seeded plan (composite problem 1/2||Mx-y||^2+g
                "the real solver with every update judged; non-trivial = at least one update judged against the KKT-certified "
                "reference; distinct = distinct fingerprints of (solver, field, g, family, callback form, return style, n, m, start, "
                "step factor, accelerate, step kind, gamma, long run, K, log10 lam, sigma bucket, compressed action sequence)")
+RULES["stop"] = ("one session = one seeded plan (an Alg subclass or App on a small generated instance: PowerMethod, MaxEig, "
+                 "GradientMethod, ConjugateGradient, PrimalDualHybridGradient, AltMin, AugmentedLagrangianMethod, ADMM, SDMM, "
+                 "NewtonsMethod, GerchbergSaxton, LinearLeastSquares x 4 solvers, L2ConstrainedMinimization, and in the thorough tier "
+                 "tiny MRI apps; max_iter 0..12, tol=0; a caller schedule over update/done/peek/read-resid, the canonical loop or "
+                 "App.run(); simulated clock with planned jumps and a simulated stderr with planned write faults) executed next to a "
+                 "twin canonical run; non-trivial = at least one library call followed by an oracle evaluation; distinct = distinct "
+                 "fingerprints of (kind, solver/app, field, n, m, max_iter, g, start, options, progress bar, schedule style, fault "
+                 "kinds, compressed action sequence)")
 SIMTIME_UNIT = {
+    "stop": "simulated seconds of the App.run clock (sum of planned clock increments over all reads)",
     "pg": "solver updates (no clock in this world; logical steps)",
     "cg": "solver updates (this world has no clock; logical steps are reported)",
 }
 ASSUMPTIONS = {
+    "stop": [
+        "an early stop is judged by continuing the same object for the remaining max_iter - iter updates; the solution must stay within 1e-12*scale",
+        "the early-stop clause is applied to algorithms that have a tol parameter (the property conditions it on tol=0); SDMM and fixed-budget algorithms are checked for S1-S4 only",
+        "power iteration: first estimate exempt (start vector not normalised); start vectors in the null space are discarded",
+        "exceptions that are the injected stream fault itself (also when raised by tqdm on a dead stderr) are propagating faults: relaxed, probe-only oracle",
+        "SDMM is driven with square constraint matrices only (the only shape its update supports)",
+    ],
     "pg": [
         "reference minimiser is KKT-certified (prox-gradient residual <= 1e-11 relative); uncertified instances are discarded and counted",
         "rate bounds use L' = 1/alpha >= L, the Lipschitz constant the chosen step certifies",
